@@ -554,8 +554,20 @@ class CallMixin:
         if new is not None and new[1] is not object and isinstance(new[0], (staticmethod, types.FunctionType)) and \
                 extract.info_for_function(getattr(new[0], "__func__", new[0])) is not None:
             raise Unsupported(f"class {cls.__name__} defines __new__")
-        ref = self.path.alloc(ObjCell(cls))
         init = self.find_method(cls, "__init__")
+        if init is not None:
+            sub0 = self.callee_contracts.get(init[0])
+            creates = getattr(getattr(sub0, "contract", None), "creates", None) if sub0 is not None else None
+            if creates is not None:
+                # objects of this class created by the code under contract are the next objects of a heap region; the
+                # (assumed) contract of __init__ says what the new object looks like
+                from .verify import make_symbolic
+                rref = make_symbolic(self, creates, "creates")
+                self.path.assume(self.alloc_counter(rref) < self.path.cell(rref).n)     # ghost size: at least what is created
+                elem = self.allocate(rref)
+                self.call_value(BoundMethod(init[0], elem, init[1]), args, kwargs)
+                return elem
+        ref = self.path.alloc(ObjCell(cls))
         if init is not None and init[1] is not object:
             self.call_value(BoundMethod(init[0], ref, init[1]), args, kwargs)
         return ref
